@@ -122,8 +122,8 @@ class SelfFW:
         self.cuf = mk_bool(c.fresh(z3.BoolSort(), 'cuf'))
         self.style = 'STYLE'
 
-    def _get_file_path(self, item, build_args):
-        return GET_PATH(self, item, build_args)
+    def _get_file_path(self, *args, **kwargs):
+        return GET_PATH(self, *args, **kwargs)        # the real helper, whatever its signature
 
 
 G = {'Path': Path}
@@ -166,6 +166,8 @@ def spec_filewrite(shape):
             extra = {'build_args': {}}
         else:
             extra = {'build_args': {'output_dir': mk_str(c.fresh(S, 'output_dir'))}}
+        # the scheduler passes every transformation the item's mode, role and targets as keywords as well
+        extra.update(mode=item.mode, role='kernel', targets=())
         if how == 'item':
             kw = dict(item=item, items=(other,), **extra)
         elif how == 'items':
